@@ -275,7 +275,7 @@ class P(flow.Plan):
                 kinds[e["k"]] = kinds.get(e["k"], 0) + 1
         if rej:
             flow.say("NOTE drift (job life cycle): %d of %d executions with cancel/restart are not behaviours of SenderJobsImpl (first: %s)"
-                     % (len(rej), tot, json.dumps(trs[rej[0]]["meta"]["scenario"])[:300]))
+                     % (len(rej), tot, json.dumps(trs[rej[0]]["meta"].get("scenario", trs[rej[0]]["meta"]))[:300]))
         if inv:
             flow.say("NOTE job life cycle: a model invariant fails on a state matched to a real execution: %s" % inv[:3])
         return {"job_life_cycle": {"executions": tot, "accepted_by_SenderJobsImpl": acc, "harness_lost": lost,
@@ -283,7 +283,7 @@ class P(flow.Plan):
                                    "callbacks_contract": {"clause_checks": cb_counts, "failures": len(cb_fails), "planted_corruptions_detected": cb_ctl},
                                    "invariant_notes": [list(x) for x in inv[:5]],
                                    "F19_resume_displaces_machine": {"executions": len(f19), "directed_witnesses_reproduced": "%d of %d" % (len(wit), len(cj.F19_WITNESSES))},
-                                   "rejected_scenarios": [trs[i]["meta"]["scenario"] for i in rej[:3]]}}
+                                   "rejected_scenarios": [trs[i]["meta"].get("scenario", trs[i]["meta"]) for i in rej[:3]]}}
 
     def executions(self, tier, sd):
         self._tier, self._sd = tier, sd
@@ -309,6 +309,11 @@ class P(flow.Plan):
                     holds[j] = rng.randint(0, k + 4)
             # beyond the listed quantifier: pause() / resume() in the middle of the job (SenderPauseImpl)
             pauses = sorted(rng.sample(range(1, k + 2), rng.choice([1, 1, 2]))) if i % 4 == 0 and k >= 2 else []
+            if pauses and pauses[0] >= 2 and rng.random() < 0.6:
+                # added after seed C15g (pause() wiped the cache of transmitted lines): the line in flight when the user pauses
+                # is the corrupted one and its 'Resend' arrives during the pause; resume() has to retransmit it
+                corrupt = sorted(set(corrupt + [pauses[0] - 1]))
+                holds[pauses[0] - 1] = pauses[0] + 6
             # zero latency (added after seed C15c): the reply is read and handled by the reader thread before write() returns to
             # the print thread; half of these runs corrupt the first transmission of the LAST job line (nothing follows to heal it)
             instant = i % 5 == 1
